@@ -222,7 +222,16 @@ def interpret(value: AS.Expr) -> AS.EvalContext:
     argv = [AS.Expr(arg, env) for arg in argv]
     fun = yield from utils.strict_functional(metadata, fun)
     recipe = proc_functional(metadata, fun, general_callable=True)
-    return (yield from recipe(metadata, argv))
+    try:
+        return (yield from recipe(metadata, argv))
+    except ArithmeticError as err:  # OverflowError, ZeroDivisionError, ...
+        raise error.UnsuspectedHangeulArithmeticError(
+            metadata, f"산술 오류가 발생했습니다: {err}"
+        ) from None
+    except ValueError as err:  # math domain error, int(nan), zero slice step, ...
+        raise error.UnsuspectedHangeulValueError(
+            metadata, f"잘못된 값을 주었습니다: {err}"
+        ) from None
 
 
 def strict(
